@@ -26,6 +26,7 @@ import NeoFS.Driver.IRNetmap
 import NeoFS.Driver.FSTree
 import NeoFS.Driver.IR
 import NeoFS.Driver.Engine
+import NeoFS.Driver.ShardMode
 open NeoFS NeoFS.Driver
 
 /-- State of all stateful models; pure models need none. -/
@@ -41,6 +42,7 @@ structure DState where
   shardst : NeoFS.ShardSteps.St := {}
   fstree : NeoFS.Driver.FSt := {}
   eng : NeoFS.Engine.Eng := {}
+  modes : NeoFS.ShardMode.St := {}
   irn : NeoFS.IRNetmap.St := ⟨0, false, 0⟩
 
 def stepLine (s : DState) (line : String) : DState × String :=
@@ -62,6 +64,7 @@ def stepLine (s : DState) (line : String) : DState × String :=
   | "fstree" => let (f, out) := fstreeStep s.fstree o; ({ s with fstree := f }, out)
   | "ir" => (s, irStep o)
   | "eng" => let (g, out) := engStep s.eng o; ({ s with eng := g }, out)
+  | "modes" => let (m, out) := modesStep s.modes o; ({ s with modes := m }, out)
   | "put" => (s, putStep o)
   | "validate" => (s, validateStep o)
   | "wcread" => let (w, out) := wcreadStep s.wcr o; ({ s with wcr := w }, out)
